@@ -5,6 +5,7 @@ import (
 	"sort"
 
 	"github.com/kardiachain/go-kardia/consensus"
+	"verif/mc/explore"
 
 	kproto "github.com/kardiachain/go-kardia/proto/kardiachain/types"
 	"github.com/kardiachain/go-kardia/types"
@@ -70,6 +71,9 @@ func (w *World) runDriver() (ok bool) {
 	}
 	defer func() {
 		if p := recover(); p != nil {
+			if explore.IsPruned(p) {
+				panic(p)
+			}
 			w.tracef("driver %s derailed: %v", w.Cfg.Driver, p)
 			ok = false
 		}
